@@ -5,7 +5,8 @@ The real PyFVTool code is executed over NumPy ``dtype=object`` arrays whose elem
 below, which build the DAG.  Nothing here knows anything about PyFVTool.
 
 Model of arithmetic: float64 operations are modelled as exact operations on the reals, with
-every literal taken at its exact double value (``Fraction(float)``).
+every float64 literal mapped to the simplest real that round-trips to it (``real_of_float``: small
+fractions such as 1/3, else the shortest decimal that prints the double).
 """
 from fractions import Fraction
 import itertools
@@ -39,7 +40,23 @@ def mk(op, args, sort='Real'):
     return n
 
 
+def real_of_float(x):
+    """the real number a float64 literal stands for.  float64 arithmetic is modelled as exact real arithmetic, so every double has
+    to be mapped to SOME real within half an ulp; the choice is the simplest one that round-trips: an integer, a fraction with a
+    small denominator (1/3, 4/3, 0.25 ...), else the shortest decimal that prints the double (1e-16 -> 1/10^16, np.pi ->
+    3.141592653589793).  Taking the exact binary value instead would make `x/(1/3*v)` and `3*x/v` - the same formula to a
+    maintainer - differ by 5e-17 relative, a difference no float64 replay can confirm."""
+    if x == int(x) and abs(x) < 2 ** 53:
+        return Fraction(int(x))
+    f = Fraction(x).limit_denominator(4096)
+    if float(f) == x:
+        return f
+    return Fraction(repr(float(x)))
+
+
 def const(q):
+    if isinstance(q, float):
+        q = real_of_float(q)
     return mk('const', (Fraction(q),))
 
 
@@ -79,7 +96,7 @@ def lift(x):
     if isinstance(x, float):
         if x != x or x in (math.inf, -math.inf):
             raise Concretize('non-finite literal %r enters symbolic arithmetic' % x)
-        return const(Fraction(x))
+        return const(real_of_float(x))
     if isinstance(x, _np.integer):
         return const(int(x))
     if isinstance(x, _np.floating):
@@ -239,7 +256,7 @@ def powr(a, b):
                 r = mul(r, a)
             return r
         if isc(a) and cv(a) > 0:
-            return const(Fraction(float(cv(a)) ** float(e)))
+            return const(float(cv(a)) ** float(e))
     return uf('pow', a, b)
 
 
@@ -381,7 +398,7 @@ def canon_linear(n):
 
 def _ufc(name, a):
     if isc(a):
-        return const(Fraction(getattr(math, name)(float(cv(a)))))
+        return const(getattr(math, name)(float(cv(a))))
     return uf(name, canon_linear(a))
 
 
@@ -457,7 +474,7 @@ def S(name):
 
 
 def Q(x):
-    return Sym(const(Fraction(x)))
+    return Sym(const(x))
 
 
 def tosym(x):
